@@ -206,7 +206,8 @@ def emit(sc, unknowns, settings, duts):
     sc.emit_header(s)
     if "p_tol" in settings:
         s.op("vnacal_new_set_p_tolerance $vn %s" % hx(settings["p_tol"]))
-        s.op("vnacal_new_set_et_tolerance $vn %s" % hx(settings["p_tol"]))
+        s.op("vnacal_new_set_et_tolerance $vn %s" % hx(
+            settings.get("et_tol", settings["p_tol"])))
     if "iter" in settings:
         s.op("vnacal_new_set_iteration_limit $vn %d" % settings["iter"])
     if settings.get("m_error"):
@@ -286,6 +287,12 @@ def work(chunk_id, payload):
                         m_error=(rng.random() < (0.6 if far else 0.3) and
                                  ctype not in ("T16", "U16")))
         info["far"] = far
+        if not far and not settings["m_error"] and rng.random() < 0.35:
+            # the two tolerances set independently: the parameters are held
+            # to p_tolerance however loosely the error terms are allowed to
+            # settle
+            settings["et_tol"] = float(min(1e-2, tol * 10 ** rng.uniform(2, 8)))
+            info["et_tol"] = settings["et_tol"]
         duts = sc.rand_dut()
         s, L = emit(sc, unk, settings, duts)
         cid = "lm%d_%d" % (chunk_id, k)
@@ -315,7 +322,7 @@ def work(chunk_id, payload):
                 desc="%s %s %dx%d F=%d form=%s %s: %s" % (
                     path, sc.ctype, sc.r, sc.c, sc.F, sc.form,
                     {k_: info[k_] for k_ in info if k_ in
-                     ("tol", "iter", "radius", "kinds")} | dict(
+                     ("tol", "et_tol", "iter", "radius", "kinds")} | dict(
                          corr_delta=(info.get("corr") or (0, None))[1],
                          m_error=settings.get("m_error")), desc),
                 script=text))
@@ -400,6 +407,10 @@ def work(chunk_id, payload):
             worst = max(worst, e)
         # the device error also scales with the conditioning of the known set
         dbound = bound * (1 + info["kappa"])
+        if info.get("et_tol"):
+            # ... and the error terms were only asked to settle to et_tol
+            dbound = (bound + 30 * info["et_tol"]) * (1 + info["kappa"])
+            bump("solves_with_independent_tolerances")
         part["maxima"]["max_dut_err_over_bound:" + path] = max(
             part["maxima"].get("max_dut_err_over_bound:" + path, 0.0),
             worst / dbound)
@@ -507,7 +518,8 @@ def main():
              "LM: every type, shapes 1x1..3x3 (+1x2, 2x1), a sufficient known "
              "set plus 1..3 unknowns (single/double reflect, line, partially "
              "unknown matrix) and correlated parameters, tolerances "
-             "1e-4..1e-12, iteration limits 1..100, with/without m_error; "
+             "1e-4..1e-12 (a third with a looser, independent et_tolerance), "
+             "iteration limits 1..100, with/without m_error; "
              "a fifth of the LM solves start 0.4..1.5 away from the truth "
              "(termination, failure report and sanitizers only); "
              "resolve: one unknown solved repeatedly on different grids, its "
